@@ -258,20 +258,31 @@ static void store(Type *ty) {
     println("  mov %%rax, (%%rdi)");
 }
 
+// A NaN compares unequal to zero, but an unordered result sets ZF.
+// Leave ZF set only if the operands were ordered and equal.
+static void unordered_is_nonzero(void) {
+  println("  setne %%al");
+  println("  setp %%dl");
+  println("  or %%dl, %%al");
+}
+
 static void cmp_zero(Type *ty) {
   switch (ty->kind) {
   case TY_FLOAT:
     println("  xorps %%xmm1, %%xmm1");
     println("  ucomiss %%xmm1, %%xmm0");
+    unordered_is_nonzero();
     return;
   case TY_DOUBLE:
     println("  xorpd %%xmm1, %%xmm1");
     println("  ucomisd %%xmm1, %%xmm0");
+    unordered_is_nonzero();
     return;
   case TY_LDOUBLE:
     println("  fldz");
     println("  fucomip");
     println("  fstp %%st(0)");
+    unordered_is_nonzero();
     return;
   }
 
@@ -1089,11 +1100,15 @@ static void gen_expr(Node *node) {
       println("  fcomip");
       println("  fstp %%st(0)");
 
-      if (node->kind == ND_EQ)
+      if (node->kind == ND_EQ) {
         println("  sete %%al");
-      else if (node->kind == ND_NE)
+        println("  setnp %%dl");
+        println("  and %%dl, %%al");
+      } else if (node->kind == ND_NE) {
         println("  setne %%al");
-      else if (node->kind == ND_LT)
+        println("  setp %%dl");
+        println("  or %%dl, %%al");
+      } else if (node->kind == ND_LT)
         println("  seta %%al");
       else
         println("  setae %%al");
